@@ -45,10 +45,10 @@ def run_single(binary, tier, desc, cfg):
 def make_replayer(bins, tier, rep):
     """A violation is replayed from its history alone (no search): fresh object, the operations of the
     history through the real API, then the transition oracle / the observers; twice, same clause."""
-    generic = core.make_replayer(lambda cfg: bins[cfg or 'asan'], tier)
+    generic = core.make_replayer(lambda cfg: bins[(cfg or 'asan').split(':')[0]], tier)
 
     def replayer(target, clause, idx, config):
-        binary = bins[config or 'asan']
+        binary = bins[(config or 'asan').split(':')[0]]
         desc = None
         for (i, d, c) in rep.viol.get((target, clause), []):
             if i == str(idx) and c == config:
@@ -58,7 +58,7 @@ def make_replayer(bins, tier, rep):
             return generic(target, clause, idx, config)
         hits = 0
         for _ in range(2):
-            p = run_single(binary, tier, desc, config or 'asan')
+            p = run_single(binary, tier, desc, (config or 'asan').split(':')[0])
             if clause.startswith('crash') or clause == 'hang':
                 if p.returncode != 0 or b'DONE' not in p.stdout:
                     hits += 1
@@ -101,9 +101,17 @@ def run(tier):
     ]
     bins = build_all()
     rep.configs = list(CONFIGS)
-    plan = {'asan': 'closed,deep,mixed', 'inplace': 'closed,deep' if tier == 'quick' else 'closed,deep,mixed'}
-    for cfg in CONFIGS:
-        core.run_sharded(rep, bins[cfg], tier, extra_args=['--cfg', cfg, '--phases', plan[cfg]], config=cfg)
+    # Every process of a run repeats the state discovery (cost D per process) and shares the observer work (O in
+    # total): wall = D + O/n, cpu = n*D + O.  The shard count per search is chosen from the measured D and O so that
+    # discovery-heavy searches (closed: 16 revisits per state) do not burn 16 x D.
+    if tier == 'quick':
+        plan = [('asan', 'closed,deep,mixed', 8), ('inplace', 'closed,deep', 8)]
+    else:
+        plan = [('asan', 'closed', 4), ('asan', 'deep', 8), ('asan', 'mixed', 16),
+                ('inplace', 'closed', 4), ('inplace', 'deep', 8), ('inplace', 'mixed', 8)]
+    for cfg, phases, n in plan:
+        core.run_sharded(rep, bins[cfg], tier, nshards=n, extra_args=['--cfg', cfg, '--phases', phases],
+                         config='%s:%s' % (cfg, phases))
     # every shard runs the identical search and prints identical notes only from shard 0
     per = parse_bfs_notes(rep.notes)
     states = sum(int(d['states']) for d in per if d['cfg'] == 'asan')
@@ -113,7 +121,7 @@ def run(tier):
     rep.extra['traces_validated_against_impl'] = sum(int(d['transitions']) for d in per)
     rep.extra['search'] = [{k: (int(v) if v.lstrip('-').isdigit() else v) for k, v in d.items()} for d in per]
     rep.extra['frontier_emptied'] = {('%s/%s' % (d['cfg'], d['phase'])): bool(int(d['frontier_emptied'])) for d in per}
-    want = sum(len(v.split(',')) for v in plan.values())
+    want = sum(len(p[1].split(',')) for p in plan)
     if len(per) != want:
         rep.harness_errors.append('expected %d search summaries, got %d' % (want, len(per)))
     # "exhaustive" = the stated bounded space was enumerated completely (depth bound or closure)
@@ -122,7 +130,7 @@ def run(tier):
 
 def replay(r, tier):
     """./check C17 --replay replay/C17/<x>.replay : re-run the recorded history, report whether it still fails."""
-    cfg = r.get('config') or 'asan'
+    cfg = (r.get('config') or 'asan').split(':')[0]
     binary = build(cfg)
     p = run_single(binary, tier, r['case'], cfg)
     if p is None:
